@@ -1857,6 +1857,14 @@ def coverage(prop, res, stage_names):
                                                    "mc_lex_configurations", "mc_lex_ok", "nmulti_survivors",
                                                    "outcomes", "mc_pipeline_ok", "mc_regen_ok", "nregenerations", "nkeys", "nsugar_uses", "nrejected", "programs", "nqueries", "nruns", "npaired", "ngenerated", "nshapes", "ncombos", "nmodel_runs", "nautomata_reproduced", "maxstates", "nreplayed", "nbehaviours") if k in r}
         cov["per_stage"][st]["divergences"] = len(r.get("divergences", []))
+        b = {}
+        for k2 in ("maxlen", "maxstates", "ncases", "ntables", "nshapes", "ncombos"):
+            if k2 in r:
+                b[k2] = r[k2]
+        cov["bounds"][st] = b
+    cov["bounds"]["corpus"] = ("curated + annotated + structured cycle/chain family + Fam(2,2,3,2)/Fam(1,2,3,3) slices "
+                               "+ seeded random grammars (<=5 nonterminals, <=5 terminals, <=12 productions, |rhs|<=5); "
+                               "inputs <= 14 tokens in traces")
     cov["states"] = max(cov["states"], 1)
     cov["transitions"] = max(cov["transitions"], 1)
     return cov
